@@ -78,6 +78,7 @@ type methodSet map[string]*ssa.Function
 
 // State shared between all interpreted goroutines.
 type interpreter struct {
+	jsonFr *frame // frame of the json.Marshal call in progress (for MarshalJSON methods)
 	*Shared
 	globals map[*ssa.Global]*value // addresses of global variables, allocated lazily per path
 	inited  map[*ssa.Package]bool  // packages whose init has run (or is running) on this path
